@@ -137,7 +137,7 @@ def compose_py(gd, X, d):
         else: out += corr.qmul(a, b)
     return out
 
-def gen_smooth(op, kmax=10, strata=("zero", "tiny", "below_thr", "at_thr", "above_thr", "small", "generic")):
+def gen_smooth(op, kmax=10, strata=("zero", "tiny", "below_thr", "at_thr", "above_thr", "small", "smallish", "generic")):
     """X, Y valid with neither X nor the relative rotation X^-1*Y exactly a half turn (log-type Jacobians exist there only as limits),
     tangents with rotation magnitude <= 3.0 (below pi), magnitudes up to 2^kmax; points arbitrary"""
     base = gen_below_pi(op, strata)
@@ -250,7 +250,7 @@ PROPS["C05"] = dict(
     corr_ops=["Inverse", "Log", "Exp", "Compose", "Between", "Rplus", "Lplus", "Plus", "Rminus", "Lminus", "Minus", "Act", "TPlus", "TMinus"],
     preds=[dict(op="P05", pairs=J05_PAIRS, scalars=("h",), htol=1e-6, dscale=lambda c: (1 + maxabs(c)) ** 2,
                 # forward differences with step 1e-30 must not straddle a branch threshold (the implemented functions jump by ~theta^3 there)
-                gen=gen_smooth("P05", strata=("zero", "tiny", "below_thr", "above_thr", "small", "generic"))),
+                gen=gen_smooth("P05", strata=("zero", "tiny", "below_thr", "above_thr", "small", "smallish", "generic"))),
            dict(op="J05", pairs=J05_PAIRS, scalars=(), xscalars=("d", "h"), xtol=1e-5, dscale=lambda c: (1 + maxabs(c)) ** 2, gen=gen_smooth("J05"))],
     n=dict(quick=(20, 25), thorough=(300, 400)),
     assumptions=["model = hand-written Gallina mirror of every Jacobian-returning operation (per-group closed forms and the chain-rule Jacobians of LieGroupBase); tied to /repo by exact comparison over the rational scalar for every subset of requested outputs",
@@ -942,8 +942,27 @@ def gen_pred_cases(g, P, n, groups=None, seed_args=None):
                 c = pd["gen"](g, gn) if pd.get("gen") else corr.gen_case(g, gn, pd["op"], force_valid=True)
                 if seed_args is not None and k < n // 2:
                     c = transplant(c, seed_args, gn)
+                elif seed_args is not None:
+                    c = restratify(c, gn, g, k)          # the search sweeps the rotation strata of the element arguments evenly
                 cases.append(c)
     return cases
+
+SEARCH_U4 = ["smallish", "smallish", "smallish_neg", "tiny", "generic_pos", "generic_neg", "near_pi", "axis"]
+SEARCH_U2 = ["smallish", "smallish", "tiny", "generic", "neg_generic", "near_pi"]
+def restratify(c, gn, g, k):
+    """search mode: the first element argument gets its rotation part from a fixed cycle of strata (log-dense small angles first)"""
+    if gn.startswith("B"): return c
+    gd = corr.group(gn); sig = corr.OPSIG[c["op"]][0]
+    args = list(c["args"])
+    for i, kd in enumerate(sig):
+        if kd != "G": continue
+        a = list(args[i]); j = 0
+        for kind, m in gd.eparts:
+            if kind == "rot4": a[j:j + m] = g.unit4(SEARCH_U4[k % len(SEARCH_U4)], nopi=True)
+            elif kind == "rot2": a[j:j + m] = g.unit2(SEARCH_U2[k % len(SEARCH_U2)], nopi=True)
+            j += m
+        args[i] = a; break
+    d = dict(c); d["args"] = args; return d
 
 def transplant(c, seed_case, gn):
     """put the arguments of a disagreeing correspondence case into the slots of the same kind of a predicate case"""
@@ -960,10 +979,13 @@ def transplant(c, seed_case, gn):
             if j < len(pool[kk]): args[i] = pool[kk][j]; used[kk] = j + 1
     d = dict(c); d["args"] = args; return d
 
-def eval_preds(P, pcases, log, scalars=("q", "d")):
-    """run predicate cases on the implementation; returns (violations, stats)"""
+def eval_preds(P, pcases, log, scalars=None):
+    """run predicate cases on the implementation; returns (violations, stats).  scalars: the instantiations to run (default: every
+    scalar some predicate of the property asks for - q exact rationals, d double, f float, h 100-digit)"""
     viol = []; stats = dict(pred_evaluations=0, pred_pairs=0, pred_build_errors=[])
     byop = {pd["op"]: pd for pd in P.get("preds", [])}
+    if scalars is None:
+        scalars = [sc for sc in ("q", "d", "f", "h") if any(sc in pd.get("scalars", ("q", "d")) for pd in P.get("preds", []))]
     for sc in scalars:
         # a predicate may state a precondition on its inputs (e.g. rotation below pi): cases outside it are not evaluated
         sub = [c for c in pcases if sc in byop[c["op"]].get("scalars", ("q", "d")) and (not byop[c["op"]].get("pre") or byop[c["op"]]["pre"](c))]
@@ -1084,8 +1106,12 @@ def run_property(pid, P, tier, seed):
         if gn in found_groups: continue                    # a concrete failing input for this group is already reported
         d0 = min(lst, key=lambda d: sum(len(fs(x)) for a in d["case"]["args"] for x in a))   # the smallest disagreeing case
         sv = []
-        for salt, d in enumerate(lst[:3]):
-            sc_ = gen_pred_cases(mkgen(pid, seed, 7 + salt), P, 30 if tier == "quick" else 200, groups=[gn], seed_args=d["case"])
+        # seeds for the search: up to 8 of the disagreeing cases, those with the largest non-unit coefficients first (a seeded
+        # defect confined to a band of inputs shows in the predicate only at the upper end of the band)
+        def _size(d):
+            return max([min(abs(x), abs(abs(x) - 1)) for a in d["case"]["args"] for x in a if abs(x) < 2] + [0])
+        for salt, d in enumerate(sorted(lst, key=_size, reverse=True)[:8]):
+            sc_ = gen_pred_cases(mkgen(pid, seed, 7 + salt), P, 48 if tier == "quick" else 200, groups=[gn], seed_args=d["case"])
             v_, _ = eval_preds(P, sc_, log)
             sv += v_
             if sv: break
